@@ -29,6 +29,8 @@ def _streams():
         "greedy": props.G, "greedy_ties": props.G_TIES, "greedy_cond": props.G_COND, "chaos": props.CH,
         "chaos_cond": props.CH_COND, "plan": props.PLAN, "clockwork": props.CW,
         "lib04": props.L04, "lib16": props.L16, "cli19": {"kind": "cli19", "profile": "loader"},
+        "greedy_z3probe": props.G_Z3, "greedy_preemptprobe": props.G_PRE, "greedy_side": props.G_SIDE,
+        "chaos_side": props.CH_SIDE,
     }
 
 
